@@ -16,6 +16,7 @@ use tokio::sync::{mpsc, Notify};
 
 pub const SHORT_MS: u64 = 400;
 pub const LONG_MS: u64 = 8_000;
+pub const CHURN_CALLS: usize = 6;
 
 #[derive(Debug, Clone, Copy, Serialize, Deserialize, Hash, PartialEq, Eq)]
 pub enum Plan {
@@ -39,6 +40,14 @@ pub struct Case {
     /// how eagerly the replier releases held requests (0 = only after a quiet period)
     pub flush_bias: u8,
     pub payload: u8,
+    /// final phase A: this many clones of a fresh short-timeout stream each issue one
+    /// never-answered request at the same moment (0 = skip)
+    #[serde(default)]
+    pub storm: u8,
+    /// final phase B: all requestor streams are dropped, the replier then answers every
+    /// request it never answered, while a fresh stream has calls in flight
+    #[serde(default)]
+    pub churn: bool,
 }
 
 fn f(req: &[u8]) -> Vec<u8> {
@@ -106,6 +115,8 @@ async fn run_typed<K: Kind>(addr: SocketAddr, certs: &Certs, c: &Case) -> Outcom
         let mut pr = perm_seed as u64 | 1 << 32;
         let mut held: Vec<(MessagePayload, Vec<u8>, usize)> = vec![];
         let mut late: Vec<(Vec<u8>, MessagePayload)> = vec![];
+        let mut never: Vec<(Vec<u8>, MessagePayload)> = vec![];
+        let mut churn_held: Vec<(MessagePayload, Vec<u8>)> = vec![];
         let mut bad: Vec<String> = vec![];
         let make_reply = |body: &[u8]| -> Bytes {
             let mut b = enc.encode(K::item(f(body))).unwrap();
@@ -129,6 +140,23 @@ async fn run_typed<K: Kind>(addr: SocketAddr, certs: &Certs, c: &Case) -> Outcom
                         let _ = rs.send(Frame::Message(MessagePayload { headers: m.headers, message: make_reply(&body) })).await;
                         continue;
                     }
+                    if body.starts_with(b"storm") {
+                        continue; // never answered
+                    }
+                    if body.starts_with(b"churn") {
+                        churn_held.push((m, body));
+                        if churn_held.len() >= CHURN_CALLS {
+                            // first every reply that is still owed to the streams that are gone ...
+                            for (b, m) in late.drain(..).chain(never.drain(..)) {
+                                let _ = rs.send(Frame::Message(MessagePayload { headers: m.headers, message: make_reply(&b) })).await;
+                            }
+                            // ... then the replies to the calls that are in flight now
+                            for (m, b) in churn_held.drain(..) {
+                                let _ = rs.send(Frame::Message(MessagePayload { headers: m.headers, message: make_reply(&b) })).await;
+                            }
+                        }
+                        continue;
+                    }
                     let idx: usize = String::from_utf8_lossy(&body).split('#').nth(1).and_then(|s| s.parse().ok()).unwrap_or(usize::MAX);
                     if idx >= plans2.len() { bad.push(format!("unparseable request body {:?}", String::from_utf8_lossy(&body[..body.len().min(40)]))); continue }
                     held.push((m, body, idx));
@@ -148,7 +176,7 @@ async fn run_typed<K: Kind>(addr: SocketAddr, certs: &Certs, c: &Case) -> Outcom
                 let i = (lcg(&mut pr) as usize) % held.len();
                 let (m, body, idx) = held.swap_remove(i);
                 match plans2[idx] {
-                    Plan::Never => {}
+                    Plan::Never => never.push((body, m)),
                     Plan::Late => late.push((body, m)),
                     Plan::Prompt => {
                         let _ = rs.send(Frame::Message(MessagePayload { headers: m.headers, message: make_reply(&body) })).await;
@@ -262,8 +290,98 @@ async fn run_typed<K: Kind>(addr: SocketAddr, certs: &Certs, c: &Case) -> Outcom
             Err(_) => return Outcome::fail("call-hung", "a request() neither returned a reply nor its timeout error within 60 s (timeouts are 0.4 s / 8 s)"),
         }
     }
-    replier.abort();
     let mut labels: Vec<&'static str> = vec![];
+    // ---- phase A: concurrent never-answered requests must each time out at the timeout ----
+    let storm = match c.storm % 5 { 3 => 3usize, 4 => 4, _ => 0 };
+    if storm > 0 {
+        let b = client.requestor(&topic).with_request_encoder(K::enc());
+        let b = match c.req_comp { Some(a) => b.with_request_compression(CompBox(c14::make(a).0)), None => b };
+        let base = match b.with_reply_decoder(K::dec()).with_request_timeout(Duration::from_millis(SHORT_MS)) {
+            Ok(b) => match b.open().await { Ok(r) => r, Err(e) => return Outcome::fail("requestor-open-failed", format!("{e}")) },
+            Err(e) => return Outcome::Inconclusive(format!("{e}")),
+        };
+        let go2 = Arc::new(Notify::new());
+        let mut ts = vec![];
+        for i in 0..storm {
+            let mut rq = base.clone();
+            let go2 = go2.clone();
+            ts.push(tokio::spawn(async move {
+                go2.notified().await;
+                let t = Instant::now();
+                let r = rq.request(K::item(format!("storm#{i}").into_bytes())).await;
+                (r.map(|_| ()).map_err(|e| e.to_string()), t.elapsed())
+            }));
+        }
+        let go3 = go2.clone();
+        let control = tokio::spawn(async move {
+            go3.notified().await;
+            let t = Instant::now();
+            tokio::time::sleep(Duration::from_millis(SHORT_MS)).await;
+            t.elapsed()
+        });
+        tokio::time::sleep(Duration::from_millis(5)).await;
+        go2.notify_waiters();
+        let control_elapsed = control.await.unwrap_or(Duration::from_secs(99));
+        let mut worst = Duration::ZERO;
+        for t in ts {
+            match tokio::time::timeout(Duration::from_secs(30), t).await {
+                Ok(Ok((Err(e), el))) if e.contains("timed out") => worst = worst.max(el),
+                Ok(Ok((Err(e), _))) => return Outcome::fail("wrong-error-for-timeout", format!("storm call: {e}")),
+                Ok(Ok((Ok(()), _))) => return Outcome::fail("reply-out-of-nowhere", "a never-answered storm call returned Ok"),
+                Ok(Err(e)) => return Outcome::fail("caller-task-panicked", format!("{e}")),
+                Err(_) => return Outcome::fail("call-hung", "a never-answered request did not time out within 30 s (timeout 0.4 s)"),
+            }
+        }
+        // only judged when a plain timer of the same length, started at the same moment on the
+        // same runtime, fired on time: then lateness is not the machine's fault
+        if control_elapsed < Duration::from_millis(SHORT_MS + 150) && worst > control_elapsed + Duration::from_millis(700) {
+            return Outcome::fail(
+                "timeout-not-timely",
+                format!("{storm} requests issued at the same moment on clones of one requestor (timeout {SHORT_MS} ms), none answered: the slowest failed only after {worst:?} while a plain {SHORT_MS} ms timer started with them fired after {control_elapsed:?}"),
+            );
+        }
+        labels.push("concurrent-timeouts");
+    }
+    // ---- phase B: streams come and go; replies owed to departed streams must not reach a new one ----
+    if c.churn {
+        drop(client);
+        tokio::time::sleep(Duration::from_millis(60)).await;
+        let client2 = match super::client(addr, certs).await {
+            Ok(c) => c,
+            Err(e) => return Outcome::Inconclusive(format!("client connect: {e}")),
+        };
+        let b = client2.requestor(&topic).with_request_encoder(K::enc());
+        let b = match c.req_comp { Some(a) => b.with_request_compression(CompBox(c14::make(a).0)), None => b };
+        let b = b.with_reply_decoder(K::dec());
+        let b = match c.rep_comp { Some(a) => b.with_reply_decompression(DecompBox(c14::make(a).1)), None => b };
+        let base = match b.with_request_timeout(Duration::from_millis(LONG_MS)) {
+            Ok(b) => match b.open().await { Ok(r) => r, Err(e) => return Outcome::fail("requestor-open-failed", format!("{e}")) },
+            Err(e) => return Outcome::Inconclusive(format!("{e}")),
+        };
+        let mut ts = vec![];
+        for i in 0..CHURN_CALLS {
+            let mut rq = base.clone();
+            ts.push(tokio::spawn(async move {
+                let body = format!("churn#{i}#").into_bytes();
+                let r = rq.request(K::item(body.clone())).await;
+                (body, r.map(|v| K::body(&v)).map_err(|e| e.to_string()))
+            }));
+        }
+        for t in ts {
+            match tokio::time::timeout(Duration::from_secs(30), t).await {
+                Ok(Ok((body, Ok(v)))) => {
+                    if v != f(&body) {
+                        return Outcome::fail("foreign-reply", format!("after the earlier requestor streams were dropped, a call on a fresh stream ({}) returned a reply owed to a departed stream: {:?}", String::from_utf8_lossy(&body), String::from_utf8_lossy(&v[..v.len().min(60)])));
+                    }
+                }
+                Ok(Ok((body, Err(e)))) => return Outcome::fail("prompt-reply-timed-out", format!("call {} on the fresh stream: {e}", String::from_utf8_lossy(&body))),
+                Ok(Err(e)) => return Outcome::fail("caller-task-panicked", format!("{e}")),
+                Err(_) => return Outcome::fail("call-hung", "a call on the fresh stream did not return within 30 s"),
+            }
+        }
+        labels.push("stream-churn-with-owed-replies");
+    }
+    replier.abort();
     let mut lenient_timeouts = 0;
     for r in &results {
         let want = f(&r.body);
@@ -327,8 +445,8 @@ pub async fn run_case(addr: SocketAddr, certs: &Certs, c: &Case) -> Outcome {
 pub fn strategy() -> BoxedStrategy<Case> {
     let comp = || prop_oneof![3 => Just(None), 2 => c14::algo_strategy().prop_filter("fast levels", |a| !c14::is_slow(*a)).prop_map(Some)];
     let plan = prop_oneof![8 => Just(Plan::Prompt), 1 => Just(Plan::Never), 1 => Just(Plan::Late), 2 => Just(Plan::Dup)];
-    (0u8..3, comp(), comp(), 0u8..3, 0u8..4, 0u8..8, proptest::collection::vec(plan, 1..12), any::<u16>(), 0u8..4, 0u8..5)
-        .prop_map(|(codec, req_comp, rep_comp, nstreams, nclones, ncalls, plans, perm_seed, flush_bias, payload)| Case { codec, req_comp, rep_comp, nstreams, nclones, ncalls, plans, perm_seed, flush_bias, payload })
+    (0u8..3, comp(), comp(), 0u8..3, 0u8..4, 0u8..8, proptest::collection::vec(plan, 1..12), any::<u16>(), 0u8..4, 0u8..5, prop_oneof![3 => Just(0u8), 1 => Just(3u8), 1 => Just(4u8)], prop::bool::weighted(0.35))
+        .prop_map(|(codec, req_comp, rep_comp, nstreams, nclones, ncalls, plans, perm_seed, flush_bias, payload, storm, churn)| Case { codec, req_comp, rep_comp, nstreams, nclones, ncalls, plans, perm_seed, flush_bias, payload, storm, churn })
         .boxed()
 }
 
@@ -369,5 +487,5 @@ pub fn replay(id: &str, case: &serde_json::Value) -> i32 {
     };
     let server = env.rt.block_on(async { TestServer::start(&env.certs) }).expect("server");
     let addr = server.addr;
-    crate::core::replay_case::<Case>(id, case, 3, |c| env.rt.block_on(run_case(addr, &env.certs, c)))
+    crate::core::replay_case::<Case>(id, case, 3, |c| match crate::core::catch(|| env.rt.block_on(run_case(addr, &env.certs, c))) { Ok(o) => o, Err(p) => Outcome::fail(format!("panic:{}", crate::core::panics::normalise(&p)), format!("panicked: {p}")) })
 }
